@@ -97,3 +97,64 @@ pub fn fix_r6_guard_order(a: &Array1<f64>, b: &Array1<f64>) -> Result<f64, ndarr
 pub fn fix_r10_no_zero_branch(a: &Array1<f64>) -> f64 {
     -a.mapv(|x| x * x.ln()).sum()
 }
+
+/// R21: a compaction that returns the wrong prefix (`..j` instead of `..i`).
+pub fn fix_r21_wrong_prefix(mut view: ArrayViewMut1<'_, f64>) -> ArrayViewMut1<'_, f64> {
+    use ndarray::s;
+    use ndarray_stats::MaybeNan;
+    if view.is_empty() {
+        return view.slice_move(s![..0]);
+    }
+    let mut i = 0;
+    let mut j = view.len() - 1;
+    loop {
+        while i <= j && !view[i].is_nan() {
+            i += 1;
+        }
+        while j > i && view[j].is_nan() {
+            j -= 1;
+        }
+        if i >= j {
+            return view.slice_move(s![..j]);
+        } else {
+            view.swap(i, j);
+            i += 1;
+            j -= 1;
+        }
+    }
+}
+
+/// R22: a Hoare partition whose left scan lets elements equal to the pivot stay on the left.
+pub fn fix_r22_not_strict<S: DataMut<Elem = i32>>(a: &mut ArrayBase<S, Ix1>, pivot_index: usize) -> usize {
+    let pivot_value = a[pivot_index].clone();
+    a.swap(pivot_index, 0);
+    let n = a.len();
+    let mut i = 1;
+    let mut j = n - 1;
+    loop {
+        loop {
+            if i > j {
+                break;
+            }
+            if a[i] > pivot_value {
+                break;
+            }
+            i += 1;
+        }
+        while pivot_value <= a[j] {
+            if j <= 1 {
+                break;
+            }
+            j -= 1;
+        }
+        if i >= j {
+            break;
+        } else {
+            a.swap(i, j);
+            i += 1;
+            j -= 1;
+        }
+    }
+    a.swap(0, i - 1);
+    i - 1
+}
